@@ -199,6 +199,7 @@ def make_rule(prop: str):
 # two small expression substitutions, one deleted effectful statement or one added early exit - the shapes of an operator / boundary / constant / wrong-variable /
 # lost-update / too-wide-shortcut slip - the function no longer is the confirmed one in a way no behaviour-preserving edit produces, and that is reported.  Any larger
 # or structural difference (a rewrite, an extracted helper, added validation, logging, ...) is "not comparable" and left to the other rules.
+SWEEPING = {"C20"}
 RELEVANCE_PATH = os.path.join(os.path.dirname(__file__), "tables", "relevance.json")
 _rel_cache = None
 MAX_EDITS = 2
@@ -466,6 +467,9 @@ def make_t2(prop: str):
         rel = dict(relevance(prop))
         if not rel:
             raise AnchorMissing(f"no relevance table entry for {prop}")
+        if prop in SWEEPING:
+            # the property's rules sweep the whole package (every function gets an obligation): an obligation does not make a function part of the mechanism
+            rel = {k: v for k, v in rel.items() if set(v) - {"rule"}}
         # files that (at most one other property apart) belong to this property alone: every function in them is the property's business
         owners = anchor_owner_counts()
         for m in anchor_modules(prop):
